@@ -84,6 +84,13 @@ func (w *world) fault(c, base int) (ref.Out, bool) {
 	return ref.Out{}, false
 }
 
+func (w *world) na() int { // "alien value" alternative (only with the panic alphabet)
+	if w.panics {
+		return 1
+	}
+	return 0
+}
+
 func (w *world) nf() int { // number of fault alternatives
 	if w.panics {
 		return 2
@@ -104,7 +111,7 @@ func (w *world) Resolve(pt, pid, field string, args map[string]any) ref.Out {
 	}
 	var o ref.Out
 	switch pt + "." + field {
-	case "Query.me", "Query.user", "User.best", "Mutation.c", "Item.owner", "User.boss", "Query.strict", "User.link", "Item.link":
+	case "Query.me", "Query.user", "User.best", "Commands.c", "Item.owner", "User.boss", "Query.strict", "User.link", "Item.link":
 		c := w.pick(key, 2+w.nf())
 		switch c {
 		case 0:
@@ -159,7 +166,12 @@ func (w *world) Resolve(pt, pid, field string, args map[string]any) ref.Out {
 			o, _ = w.fault(c, 3)
 		}
 	case "Query.nodes":
-		c := w.pick(key, 4+w.nf())
+		c := w.pick(key, 4+w.nf()+w.na())
+		if w.panics && c == 4+w.nf() {
+			// an element of a Go type that is not a schema implementor: the element marshaler panics
+			o = ref.Out{List: []*ref.Obj{ref.NewUser(cid + "[0]"), {Type: "Alien", ID: cid + "[1]"}, ref.NewItem(cid + "[2]")}}
+			break
+		}
 		switch c {
 		case 0:
 			o = ref.Out{List: []*ref.Obj{ref.NewUser(cid + "[0]"), ref.NewItem(cid + "[1]")}}
@@ -194,7 +206,7 @@ func (w *world) Resolve(pt, pid, field string, args map[string]any) ref.Out {
 		default:
 			o, _ = w.fault(c, 2)
 		}
-	case "Mutation.a":
+	case "Commands.a":
 		c := w.pick(key, 1+w.nf())
 		switch c {
 		case 0:
@@ -202,7 +214,7 @@ func (w *world) Resolve(pt, pid, field string, args map[string]any) ref.Out {
 		default:
 			o, _ = w.fault(c, 1)
 		}
-	case "Mutation.b":
+	case "Commands.b":
 		c := w.pick(key, 2+w.nf())
 		switch c {
 		case 0:
@@ -268,7 +280,7 @@ func (w *world) called(key string) {
 type resolverRoot struct{ w *world }
 
 func (r *resolverRoot) Query() QueryResolver               { return &queryResolver{r.w} }
-func (r *resolverRoot) Mutation() MutationResolver         { return &mutationResolver{r.w} }
+func (r *resolverRoot) Commands() CommandsResolver         { return &mutationResolver{r.w} }
 func (r *resolverRoot) Subscription() SubscriptionResolver { return &subscriptionResolver{r.w} }
 func (r *resolverRoot) User() UserResolver                 { return &userResolver{r.w} }
 func (r *resolverRoot) Item() ItemResolver                 { return &itemResolver{r.w} }
@@ -328,8 +340,14 @@ func mkNode(o *ref.Obj) Node {
 	if o == nil {
 		return nil
 	}
-	if o.Type == "User" {
+	switch o.Type {
+	case "User":
 		return mkUser(o)
+	case "Alien":
+		if theWorld != nil {
+			theWorld.notePanic() // marshalling it will panic exactly once
+		}
+		return Alien{ID: o.ID}
 	}
 	return mkItem(o)
 }
@@ -370,16 +388,16 @@ func (r *queryResolver) Strict(ctx context.Context) (*User, error) {
 type mutationResolver struct{ w *world }
 
 func (r *mutationResolver) A(ctx context.Context, x int) (int, error) {
-	r.w.called("/Mutation.a")
-	o := r.w.Resolve("Mutation", "", "a", nil)
+	r.w.called("/Commands.a")
+	o := r.w.Resolve("Commands", "", "a", nil)
 	if done, err := outErr(o); done {
 		return 0, err
 	}
 	return o.Int, nil
 }
 func (r *mutationResolver) B(ctx context.Context, x int) (*int, error) {
-	r.w.called("/Mutation.b")
-	o := r.w.Resolve("Mutation", "", "b", nil)
+	r.w.called("/Commands.b")
+	o := r.w.Resolve("Commands", "", "b", nil)
 	if done, err := outErr(o); done {
 		return nil, err
 	}
@@ -387,7 +405,7 @@ func (r *mutationResolver) B(ctx context.Context, x int) (*int, error) {
 	return &v, nil
 }
 func (r *mutationResolver) C(ctx context.Context) (*User, error) {
-	return r.w.user("Mutation", "", "c")
+	return r.w.user("Commands", "", "c")
 }
 
 type subscriptionResolver struct{ w *world }
